@@ -337,13 +337,17 @@ XalanNamespacesStack::prefixIsPresentLocal(const XalanDOMString&    thePrefix)
 void
 XalanNamespacesStack::clear()
 {
-    // Since we always keep one dummy entry at the beginning,
-    // swap with an OutputContextStackType instance of size 1.
-    NamespacesStackType(m_resultNamespaces.getMemoryManager(), 1 ).swap(m_resultNamespaces);
+    // Go back to the dummy entry at the beginning, emptying the entries
+    // on the way, as popContext() does.  The entries are kept for reuse.
+    // This is called while a processor is reset or destroyed, also after a
+    // failure, so it must not allocate memory: building a new stack to
+    // swap with could throw out of a destructor.
+    while (m_stackPosition != m_stackBegin)
+    {
+        (*m_stackPosition).reset();
 
-    m_stackBegin = m_resultNamespaces.begin();
-
-    m_stackPosition = m_stackBegin;
+        --m_stackPosition;
+    }
 
     m_createNewContextStack.clear();
 }
